@@ -164,8 +164,12 @@ func (b *BoundedBacktracker) reset(state *BacktrackerState, haystackLen int) {
 	state.Generation++
 	// Handle overflow by clearing array (every 65536 searches - rare)
 	if state.Generation == 0 {
-		for i := range state.Visited {
-			state.Visited[i] = 0
+		// Clear the whole backing array, not just the part this search uses:
+		// a later, longer search re-slices into the tail, and stale marks there
+		// would collide with the restarted generation numbers.
+		full := state.Visited[:cap(state.Visited)]
+		for i := range full {
+			full[i] = 0
 		}
 		state.Generation = 1
 	}
@@ -291,8 +295,9 @@ func (b *BoundedBacktracker) SearchAtWithState(haystack []byte, at int, state *B
 		state.Generation++
 		// Handle overflow by resetting the array (every 256 searches)
 		if state.Generation == 0 {
-			for i := range state.Visited {
-				state.Visited[i] = 0
+			full := state.Visited[:cap(state.Visited)]
+			for i := range full {
+				full[i] = 0
 			}
 			state.Generation = 1
 		}
